@@ -81,7 +81,6 @@ structure WInv (k : Key2) (m : Int) (w : World) : Prop where
   tkeys : (w.trials.map (·.key)).Nodup
   tnames : ∀ t ∈ w.trials, t.key.ns = k.ns → t.exp = k.name → ∃ s, findSug w k = some s ∧ t.key.name ∈ s.st.names
   sug : ∀ s, findSug w k = some s → NamesOk m s
-  exp : ∀ e, findExp w k = some e → e.maxT = some m
 
 def Past (k : Key2) (h c : World) : Prop :=
   ∀ sh, findSug h k = some sh → ∃ sc, findSug c k = some sc ∧ sh.st.names <+: sc.st.names ∧ sh.rv ≤ sc.rv ∧ (sh.rv = sc.rv → sh = sc)
@@ -103,11 +102,10 @@ theorem Past.trans {k : Key2} {a b c : World} (h1 : Past k a b) (h2 : Past k b c
 theorem frame {k : Key2} {m : Int} {w w' : World} (hW : WInv k m w) (ht : w'.trials = w.trials) (hs : w'.sugs = w.sugs) (he : w'.exps = w.exps) :
     WInv k m w' ∧ Past k w w' := by
   have fs : ∀ k, findSug w' k = findSug w k := fun k => by unfold findSug; rw [hs]
-  have fe : ∀ k, findExp w' k = findExp w k := fun k => by unfold findExp; rw [he]
-  refine ⟨⟨by rw [ht]; exact hW.tkeys, ?_, ?_, ?_⟩, ?_⟩
+  have _fe : ∀ k, findExp w' k = findExp w k := fun k => by unfold findExp; rw [he]
+  refine ⟨⟨by rw [ht]; exact hW.tkeys, ?_, ?_⟩, ?_⟩
   · intro t h; rw [ht] at h; rw [fs]; exact hW.tnames t h
   · intro s h; rw [fs] at h; exact hW.sug s h
-  · intro e h; rw [fe] at h; exact hW.exp e h
   · intro sh h; exact ⟨sh, by rw [fs]; exact h, List.prefix_refl _, Nat.le_refl _, fun _ => rfl⟩
 
 /-- a change of trials only, which keeps every trial's key and experiment and removes or keeps trials -/
@@ -116,15 +114,14 @@ theorem frame_trials {k : Key2} {m : Int} {w w' : World} (hW : WInv k m w) (hs :
     (hsub : ∀ t' ∈ w'.trials, ∃ t ∈ w.trials, t'.key = t.key ∧ t'.exp = t.exp) :
     WInv k m w' ∧ Past k w w' := by
   have fs : ∀ k, findSug w' k = findSug w k := fun k => by unfold findSug; rw [hs]
-  have fe : ∀ k, findExp w' k = findExp w k := fun k => by unfold findExp; rw [he]
-  refine ⟨⟨hk, ?_, ?_, ?_⟩, ?_⟩
+  have _fe : ∀ k, findExp w' k = findExp w k := fun k => by unfold findExp; rw [he]
+  refine ⟨⟨hk, ?_, ?_⟩, ?_⟩
   · intro t' h hns hexp
     obtain ⟨t, ht, e1, e2⟩ := hsub t' h
     rw [fs]
     have := hW.tnames t ht (by rw [← e1]; exact hns) (by rw [← e2]; exact hexp)
     rw [← e1] at this; exact this
   · intro s h; rw [fs] at h; exact hW.sug s h
-  · intro e h; rw [fe] at h; exact hW.exp e h
   · intro sh h; exact ⟨sh, by rw [fs]; exact h, List.prefix_refl _, Nat.le_refl _, fun _ => rfl⟩
 
 theorem map_key_upd (l : List TrialO) (k : Key2) (f : TrialO → TrialO) (hf : ∀ t, (f t).key = t.key) :
@@ -171,10 +168,7 @@ theorem apply_pres {k : Key2} {m : Int} (hm : 0 ≤ m) {hS w w' : World} {c : Ca
     · split at h
       · cases h
       · cases h
-        refine ⟨⟨hW.tkeys, hW.tnames, hW.sug, ?_⟩, fun sh hh => ⟨sh, hh, List.prefix_refl _, Nat.le_refl _, fun _ => rfl⟩⟩
-        intro e he
-        obtain ⟨e0, h0, hm0⟩ := exp_upd_maxT he (fun _ => ⟨rfl, rfl⟩)
-        rw [hm0]; exact hW.exp e0 h0
+        exact ⟨⟨hW.tkeys, hW.tnames, hW.sug⟩, fun sh hh => ⟨sh, hh, List.prefix_refl _, Nat.le_refl _, fun _ => rfl⟩⟩
   | expStatus k' rv st =>
     simp only [applyCall] at h
     split at h
@@ -182,10 +176,7 @@ theorem apply_pres {k : Key2} {m : Int} (hm : 0 ≤ m) {hS w w' : World} {c : Ca
     · split at h
       · cases h
       · cases h
-        refine ⟨⟨hW.tkeys, hW.tnames, hW.sug, ?_⟩, fun sh hh => ⟨sh, hh, List.prefix_refl _, Nat.le_refl _, fun _ => rfl⟩⟩
-        intro e he
-        obtain ⟨e0, h0, hm0⟩ := exp_upd_maxT he (fun _ => ⟨rfl, rfl⟩)
-        rw [hm0]; exact hW.exp e0 h0
+        exact ⟨⟨hW.tkeys, hW.tnames, hW.sug⟩, fun sh hh => ⟨sh, hh, List.prefix_refl _, Nat.le_refl _, fun _ => rfl⟩⟩
   | sugCreate s =>
     simp only [applyCall] at h
     split at h
@@ -194,7 +185,7 @@ theorem apply_pres {k : Key2} {m : Int} (hm : 0 ≤ m) {hS w w' : World} {c : Ca
       cases h
       have fsd : ∀ k', findSug { w with sugs := w.sugs ++ [s] } k' = if s.key = k' then some s else findSug w k' :=
         fun k' => findSug_append_none s hnone
-      refine ⟨⟨hW.tkeys, ?_, ?_, hW.exp⟩, ?_⟩
+      refine ⟨⟨hW.tkeys, ?_, ?_⟩, ?_⟩
       · intro t ht hns hexp
         obtain ⟨s0, hs0, hmem⟩ := hW.tnames t ht hns hexp
         rw [fsd]
@@ -223,7 +214,7 @@ theorem apply_pres {k : Key2} {m : Int} (hm : 0 ≤ m) {hS w w' : World} {c : Ca
       · cases h
       · cases h
         have fs := fun k0 => findSug_updSug w k0 k' (fun s => { s with requests := req, rv := s.rv + 1 }) (fun _ => rfl)
-        refine ⟨⟨hW.tkeys, ?_, ?_, hW.exp⟩, ?_⟩
+        refine ⟨⟨hW.tkeys, ?_, ?_⟩, ?_⟩
         · intro t ht hns hexp
           obtain ⟨s1, hs1, hmem⟩ := hW.tnames t ht hns hexp
           rw [fs, hs1]
@@ -283,7 +274,7 @@ theorem apply_pres {k : Key2} {m : Int} (hm : 0 ≤ m) {hS w w' : World} {c : Ca
               rw [e, List.length_append]
               have : ((sv.st.names.length + l.length : Nat) : Int) = (sv.st.names.length : Int) + (l.length : Int) := by omega
               rw [this, hl, c]; omega
-          refine ⟨⟨hW.tkeys, ?_, ?_, hW.exp⟩, ?_⟩
+          refine ⟨⟨hW.tkeys, ?_, ?_⟩, ?_⟩
           · intro t ht hns hexp
             obtain ⟨s1, hs1, hmem⟩ := hW.tnames t ht hns hexp
             rw [hs0] at hs1; cases hs1
@@ -307,7 +298,7 @@ theorem apply_pres {k : Key2} {m : Int} (hm : 0 ≤ m) {hS w w' : World} {c : Ca
             intro s1 h1
             have : s1.key ≠ k' := fun e => hkk (e.symm.trans (findSug_key h1))
             simp [this]
-          refine ⟨⟨hW.tkeys, ?_, ?_, hW.exp⟩, ?_⟩
+          refine ⟨⟨hW.tkeys, ?_, ?_⟩, ?_⟩
           · intro t ht hns hexp
             obtain ⟨s1, hs1, hmem⟩ := hW.tnames t ht hns hexp
             rw [fs, hs1]
@@ -331,7 +322,7 @@ theorem apply_pres {k : Key2} {m : Int} (hm : 0 ≤ m) {hS w w' : World} {c : Ca
     · cases h
     · rename_i hnone
       cases h
-      refine ⟨⟨?_, ?_, hW.sug, hW.exp⟩, fun sh hh => ⟨sh, hh, List.prefix_refl _, Nat.le_refl _, fun _ => rfl⟩⟩
+      refine ⟨⟨?_, ?_, hW.sug⟩, fun sh hh => ⟨sh, hh, List.prefix_refl _, Nat.le_refl _, fun _ => rfl⟩⟩
       · simp only [List.map_append, List.map_cons, List.map_nil]
         rw [List.nodup_append]
         refine ⟨hW.tkeys, by simp, ?_⟩
@@ -550,5 +541,125 @@ theorem exec_budget {k : Key2} {m : Int} (hm : 0 ≤ m) {hS w0 : World} (f : Fau
       exact ⟨h1, Past.trans hI.2 h2⟩)
     p w0 0 [] hp ⟨hW, Past.refl k w0⟩
   exact this
+
+/-! ### the bound may grow; experiments keep their budget fields -/
+
+theorem WInv.mono {k : Key2} {m m' : Int} {w : World} (h : m ≤ m') (hW : WInv k m w) : WInv k m' w :=
+  ⟨hW.tkeys, hW.tnames, fun s hs => by
+    obtain ⟨a, b, c⟩ := hW.sug s hs
+    exact ⟨Int.le_trans a h, Int.le_trans b h, c⟩⟩
+
+theorem VJust.mono {k : Key2} {m m' : Int} {hS : World} {c : Call} (h : m ≤ m') (hJ : VJust k m hS c) : VJust k m' hS c := by
+  cases c with
+  | sugCreate s => intro hk; obtain ⟨a, b, c⟩ := hJ hk; exact ⟨a, b, Int.le_trans c h⟩
+  | sugUpdateReq k' rv req => intro hk; exact Int.le_trans (hJ hk) h
+  | sugStatus k' rv st => exact hJ
+  | trialCreate t => exact hJ
+  | _ => trivial
+
+/-- the budget fields of the experiment `k` are `(mx, p)` -/
+def XInv (k : Key2) (mx : Option Int) (p : Int) (w : World) : Prop := ∀ e, findExp w k = some e → e.maxT = mx ∧ e.par = p
+
+theorem exp_upd_fields {w : World} {k k' : Key2} {f : ExpO → ExpO} {e : ExpO} (he : findExp (updExp w k' f) k = some e)
+    (hf : ∀ x, (f x).key = x.key ∧ (f x).maxT = x.maxT ∧ (f x).par = x.par) : ∃ e0, findExp w k = some e0 ∧ e.maxT = e0.maxT ∧ e.par = e0.par := by
+  rw [findExp_updExp w k k' f (fun x => (hf x).1)] at he
+  cases h0 : findExp w k with
+  | none => rw [h0] at he; cases he
+  | some e0 =>
+    rw [h0] at he
+    simp only [Option.map_some, Option.some.injEq] at he
+    subst he
+    refine ⟨e0, rfl, ?_⟩
+    split
+    · exact (hf e0).2
+    · exact ⟨rfl, rfl⟩
+
+theorem apply_pres_x {k : Key2} {mx : Option Int} {p : Int} {w w' : World} {c : Call} (hX : XInv k mx p w) (h : applyCall w c = .ok w') :
+    XInv k mx p w' := by
+  have same : w'.exps = w.exps → XInv k mx p w' := fun e => by
+    intro e0 he; unfold findExp at he; rw [e] at he; exact hX e0 he
+  cases c with
+  | expUpdateFin k' rv fin =>
+    simp only [applyCall] at h; split at h
+    · cases h
+    · split at h
+      · cases h
+      · cases h
+        intro e he
+        obtain ⟨e0, h0, h1, h2⟩ := exp_upd_fields he (fun _ => ⟨rfl, rfl, rfl⟩)
+        rw [h1, h2]; exact hX e0 h0
+  | expStatus k' rv st =>
+    simp only [applyCall] at h; split at h
+    · cases h
+    · split at h
+      · cases h
+      · cases h
+        intro e he
+        obtain ⟨e0, h0, h1, h2⟩ := exp_upd_fields he (fun _ => ⟨rfl, rfl, rfl⟩)
+        rw [h1, h2]; exact hX e0 h0
+  | sugCreate s => simp only [applyCall] at h; split at h <;> cases h; exact same (by rfl)
+  | sugUpdateReq k' rv req =>
+    simp only [applyCall] at h; split at h
+    · cases h
+    · split at h <;> cases h; exact same (by rfl)
+  | sugStatus k' rv st =>
+    simp only [applyCall] at h; split at h
+    · cases h
+    · split at h <;> cases h; exact same (by rfl)
+  | trialCreate t => simp only [applyCall] at h; split at h <;> cases h; exact same (by rfl)
+  | trialUpdateFin k' rv fin =>
+    simp only [applyCall] at h; split at h
+    · cases h
+    · split at h
+      · cases h
+      · split at h <;> cases h <;> exact same (by rfl)
+  | trialStatus k' rv st =>
+    simp only [applyCall] at h; split at h
+    · cases h
+    · split at h <;> cases h; exact same (by rfl)
+  | trialDelete k' =>
+    simp only [applyCall] at h; split at h
+    · cases h
+    · split at h <;> cases h <;> exact same (by rfl)
+  | jobCreate k' => simp only [applyCall] at h; split at h <;> cases h; exact same (by rfl)
+  | jobDelete k' => simp only [applyCall] at h; split at h <;> cases h; exact same (by rfl)
+  | deployCreate k' => simp only [applyCall] at h; split at h <;> cases h; exact same (by rfl)
+  | deployDelete k' => simp only [applyCall] at h; split at h <;> cases h; exact same (by rfl)
+  | svcCreate k' =>
+    simp only [applyCall, createKey] at h; split at h
+    · cases h
+    · cases h; exact same (by rfl)
+  | svcDelete k' => simp only [applyCall] at h; split at h <;> cases h; exact same (by rfl)
+  | pvcCreate k' =>
+    simp only [applyCall, createKey] at h; split at h
+    · cases h
+    · cases h; exact same (by rfl)
+  | saCreate k' =>
+    simp only [applyCall, createKey] at h; split at h
+    · cases h
+    · cases h; exact same (by rfl)
+  | roleCreate k' =>
+    simp only [applyCall, createKey] at h; split at h
+    · cases h
+    · cases h; exact same (by rfl)
+  | rbCreate k' =>
+    simp only [applyCall, createKey] at h; split at h
+    · cases h
+    · cases h; exact same (by rfl)
+  | rpcValidate e => simp only [applyCall] at h; cases h; exact same (by rfl)
+  | rpcValidateES => simp only [applyCall] at h; cases h; exact same (by rfl)
+  | rpcGetSuggestions e cur total ts consume ok => simp only [applyCall] at h; split at h <;> cases h; exact same (by rfl)
+  | rpcGetRules e ok => simp only [applyCall] at h; split at h <;> cases h; exact same (by rfl)
+  | dbGet t => simp only [applyCall] at h; cases h; exact same (by rfl)
+  | dbDelete t => simp only [applyCall] at h; cases h; exact same (by rfl)
+  | dbReport t e => simp only [applyCall] at h; split at h <;> cases h <;> exact same (by rfl)
+
+theorem exec_x {k : Key2} {mx : Option Int} {p : Int} {w0 : World} (f : Faults) (pr : Prog) (hX : XInv k mx p w0) :
+    XInv k mx p (exec f pr w0 0 []).w :=
+  exec_preserves (I := XInv k mx p) (P := fun _ => True) f (fun _ _ _ hI _ happ => apply_pres_x hI happ) pr w0 0 []
+    (by
+      induction pr with
+      | done _ => trivial
+      | step c ok fail ih1 ih2 => exact ⟨trivial, ih1, ih2⟩) hX
 
 end Katib.Ctl
